@@ -2,4 +2,5 @@ import Cgm.Lemmas.AuditCmd
 import Cgm.Props.C09
 import Cgm.Props.C09b
 import Cgm.Props.C09c
+import Cgm.Props.C09d
 #audit_namespace Cg.C09
